@@ -17,8 +17,25 @@ for v in UNITS:
         v["canaries"] = [dict(name="xstate_leaked", where="body:solve", rx=r"freeState\(xstate\);", repl=";"),
                          dict(name="reports_solution_without_path", where="body:solve", rx=r"addSolutionPathS\(approximate, approxdif\);", repl=";", thorough_only=True),
                          dict(name="scratch_state_freed_twice", where="body:solve", rx=r"DELETE_MOTION\(rmotion\);", repl="freeState(M_state[rmotion]); DELETE_MOTION(rmotion);", thorough_only=True)]
+# resumed solve of control::PDST (the unit of C02; its C03.resume obligations: an earlier result is replaced only by a closer or an exact one,
+# and without a new path the earlier exact solution stands)
+_s2 = importlib.util.spec_from_file_location("c02", os.path.join(os.path.dirname(__file__), "C02.py")); C02 = importlib.util.module_from_spec(_s2); _s2.loader.exec_module(C02)
+for u in C02.UNITS:
+    if u["name"] == "c02_pdst_solve_flags":
+        v = copy.deepcopy(u); v["name"] = "c03_pdst_resumed_solve"; UNITS.append(v)
+# clear() of the multilevel graph planners' common base
+UNITS.append(dict(name="c03_bundlespacegraph_clear", template="C01/bundle_clear.c", mode="plain", entry="h_bundle_clear", flags=["--bounds-check", "--pointer-check"], level="proof", backend="minisat", timeout=300,
+                  functions=["ompl::multilevel::BundleSpaceGraph::clear"],
+                  sources=[dict(name="clear", file="src/ompl/multilevel/datastructures/src/BundleSpaceGraph.cpp", sig=r"void BundleSpaceGraph::clear\(\)", loops={},
+                                rules=[(r"BaseT::clear\(\);", "BASE_CLEAR();", 0), (r"clearVertices\(\);", "n_vertices = 0;", 0), (r"pis_\.restart\(\);", "pis_restarted = 1;", 0),
+                                       (r"bestCost_ = base::Cost\(base::dInf\);", "bestCost_ = __builtin_inf();", 0), (r"shortestVertexPath_\.clear\(\);", "svp_n = 0;", 0),
+                                       (r"startConfigurations_\.clear\(\);", "sc_n = 0;", 0), (r"goalConfigurations_\.clear\(\);", "gc_n = 0;", 0), (r"!isDynamic\(\)", "!IS_DYNAMIC()", 0),
+                                       (r"solutionPath_ != nullptr", "solutionPath_ != NIL", 0), (r"std::static_pointer_cast<geometric::PathGeometric>\(solutionPath_\)->clear\(\);", "sp_len = 0;", 0),
+                                       (r"importanceCalculator_->clear\(\);", "ic_cleared = 1;", 0), (r"graphSampler_->clear\(\);", "gs_cleared = 1;", 0), (r"pathRestriction_ != nullptr", "pathRestriction_ != NIL", 0),
+                                       (r"pathRestriction_->clear\(\);", "pr_cleared = 1;", 0)])],
+                  canaries=[dict(name="start_index_kept", where="body:clear", rx=r"vStart_ = 0;", repl="")]))
 ASSUMPTIONS = C01.ASSUMPTIONS + ["the termination condition returns an arbitrary value at every evaluation (so every interruption point is covered); executions that create fewer than 8 motions"]
 TRUSTED = C01.TRUSTED
-NOT_COVERED = ["every planner other than geometric::RRT (each solve()/clear() body would need its own contracts)",
+NOT_COVERED = ["every planner other than geometric::RRT (whole solve), control::PDST (flag logic of a resumed solve) and BundleSpaceGraph::clear (each solve()/clear() body would need its own contracts)",
                "resuming: that a second solve() continues the preserved search and only keeps or improves the reported solution; clear()/setProblemDefinition() forgetting the old query inside the planners (freeMemory, nn_->clear) -- only the PlannerInputStates cursors are verified",
                "crash-freedom beyond the memory-safety obligations of the modelled calls"]
